@@ -767,6 +767,10 @@ def systematic_sessions(tier):
                 leaves[k] = s
                 break
     base = {"data": data, "links": [], "groups": []}
+    # a ComponentID shared between datasets, the user before and after its owner in the collection
+    for share in ([[0, 1, 0, 5]], [[1, 0, 0, 5]], [[0, 2, 1, 7], [3, 2, 1, 9]], [[4, 0, 1, 3], [0, 4, 0, 2]]):
+        yield dict(base, share=share)
+        yield dict(base, share=share, via_app=True)
     for k, s in leaves.items():
         yield dict(base, groups=[[s, None, 3]])
         yield dict(base, groups=[[["inv", s], "g", None]])
